@@ -92,10 +92,25 @@ REJECTS = [
     ('default-outside-switch', 'int f(int v) { default: return 1; }'),
     ('dup-case-nested-same-switch', 'int f(int v) { switch (v) { case 2: { case 2: return 1; } } return 0; }'),
 ]
+# case constants are converted to the promoted type of the controlling expression (6.8.4.2p5): for every controlling type, two constants that
+# are equal AFTER that conversion are duplicates, two that differ only before it are distinct
+_CT = [('int', 32, True), ('unsigned', 32, False), ('long', 64, True), ('unsigned long', 64, False), ('short', 32, True), ('unsigned short', 32, True),
+       ('signed char', 32, True), ('unsigned char', 32, True), ('_Bool', 32, True), ('long long', 64, True), ('unsigned long long', 64, False)]
+for _t, _w, _sg in _CT:
+    _n = _t.replace(' ', '-')
+    if _w == 32:
+        _pairs = [('-1', '4294967295u' if not _sg else '0xffffffffffffffff'), ('1', '4294967297'), ('0', '0x100000000'), ('-2147483647 - 1', '2147483648u' if not _sg else '0x80000000u')]
+    else:
+        _pairs = [('-1', '18446744073709551615u'), ('-9223372036854775807 - 1', '9223372036854775808u')]
+    for _k, (_a, _b) in enumerate(_pairs):
+        REJECTS.append(('dup-after-conversion/%s/%d' % (_n, _k), 'int f(%s v) { switch (v) { case %s: return 1; case %s: return 2; } return 0; }' % (_t, _a, _b)))
 ACCEPTS = [
     ('same-constant-in-nested-switch', 'int f(int v) { switch (v) { case 2: switch (v) { case 2: return 1; } } return 0; }'),
     ('distinct-after-promotion', 'int f(char c) { switch (c) { case 0: return 1; case 256: return 2; } return 0; }'),
-]
+] + [('distinct-64-bit/%s' % t.replace(' ', '-'), 'int f(%s v) { switch (v) { case 1: return 1; case 4294967297: return 2; case -1: return 3; case 4294967295: return 4; } return 0; }' % t)
+     for t in ('long', 'unsigned long', 'long long', 'unsigned long long')] + \
+    [('distinct-narrow/%s' % t.replace(' ', '-'), 'int f(%s v) { switch (v) { case 1: return 1; case 257: return 2; case 65537: return 3; case -1: return 4; case 255: return 5; case 65535: return 6; } return 0; }' % t)
+     for t in ('short', 'unsigned short', 'signed char', 'unsigned char', '_Bool', 'char')]
 
 
 def _job(a):
